@@ -157,23 +157,26 @@ def finder_paths(cfg):
     return X.call("FindInPaths", cfg)
 
 
-def do_create(run, cfg, s, data=None, oracle_prefix=None):
-    """Execute create through the real writer, update the model. Returns (expected_kind, obs)."""
+def do_create(run, cfg, s, data=None, oracle_prefix=None, obj=False):
+    """Execute create through the real writer, update the model. Returns (expected_kind, obs).
+    obj: hand the Sid over as a Sid object instead of a string (the API accepts both)."""
     kind = run.store.can_create(cfg, s)
-    a = [s] if data is None else [s, X.lit(data)]
+    sv = X.sid(s) if obj else s
+    a = [sv] if data is None else [sv, X.lit(data)]
     obs = run.do(X.meth(writer(cfg), "create", *a))
     if kind == "ok" and obs is True:
         run.store.create(cfg, s, data)
     return kind, obs
 
 
-def do_write(run, cfg, s, how, data):
+def do_write(run, cfg, s, how, data, obj=False):
     """Execute set/update through the real writer, update the model when it succeeds."""
     exists = run.store.exists(cfg, s)
+    sv = X.sid(s) if obj else s
     if how == "set":
-        e = X.meth(writer(cfg), "set", s, **data)
+        e = X.meth(writer(cfg), "set", sv, **data)
     else:
-        e = X.meth(writer(cfg), "update", s, X.lit(data))
+        e = X.meth(writer(cfg), "update", sv, X.lit(data))
     obs = run.do(e)
     if exists and obs is True:
         run.store.write(cfg, s, data)
